@@ -4,6 +4,7 @@
 //!   mv <scenario> explore <params.json> --seed S --n N [--uniform]
 //!   mv <scenario> dfs     <params.json> --max N --pb K
 //!   mv <scenario> one     <replay.json>
+mod alloc;
 mod ctrl;
 mod driver;
 mod run;
